@@ -1072,13 +1072,37 @@ func lemmaUpdateThenNew(s *bufferSlice) {
 //@   at call (*sliceList).size#0 assume l.sliceList.len > 0 ==> l.sliceList.frontSlice != nil && (l.sliceList.len > 1 ==> l.sliceList.frontSlice.nextSlice != nil) && listOK(l.sliceList)
 
 // thin contracts used by Flush / close / clean (C05, C07, C09)
+// recycle: every slice of the buffer is released exactly once (shared-memory slices through the buffer
+// manager, others back to the wrapper pool) and the buffer ends empty
 //@ func (*linkedBuffer).recycle
+//@   requires listOK(l.sliceList)
+//@   ghost var released int = 0
+//@   at call? (*bufferManager).recycleBuffer#0 ghost released := released + 1
+//@   at call? putBackBufferSlice#0 ghost released := released + 1
+//@   exit[C09] released == old(l.sliceList.len) && l.sliceList.len == 0
+//@   loop 0 assume l.sliceList.len > 0 ==> l.sliceList.frontSlice != nil && (l.sliceList.len > 1 ==> l.sliceList.frontSlice.nextSlice != nil)
+//@   loop 0 invariant listOK(l.sliceList) && released + l.sliceList.len == old(l.sliceList.len) && l.sliceList == old(l.sliceList)
 //@   modifies heap
 //@ func (*linkedBuffer).done
 //@   modifies heap
 //@ func (*linkedBuffer).clean
+//@   requires listOK(l.sliceList)
+//@   ensures  l.sliceList.len == 0 && l.len == 0 && !l.currentPinned && l.isFromShm && l.sliceList.writeSlice == nil
+//@   loop 0 assume l.sliceList.len > 0 ==> l.sliceList.frontSlice != nil && (l.sliceList.len > 1 ==> l.sliceList.frontSlice.nextSlice != nil)
+//@   loop 0 invariant listOK(l.sliceList) && l.sliceList == old(l.sliceList)
 //@   modifies heap
+// clear: every pending entry is released (fallback slices to the pool, shared-memory chains through
+// recycleBuffers) and the list is emptied; it stops early only when an entry's offset is rejected by readBufferSlice
 //@ func (*pendingData).clear
+//@   requires r.stream != nil && r.stream.session != nil && r.stream.session.bufferManager != nil && len(r.stream.session.bufferManager.mem) < 4294967296
+//@   ghost var handled int = 0
+//@   ghost var broke bool = false
+//@   at call? putBackBufferSlice#0 ghost handled := handled + 1
+//@   at call? (*bufferManager).recycleBuffers#0 ghost handled := handled + 1
+//@   at call? (*bufferManager).readBufferSlice#0 ghost broke := broke || r1 != nil
+//@   exit[C09] len(r.unread) == 0 && (!broke ==> handled == old(len(r.unread)))
+//@   loop 0 invariant -1 <= rangeindex && rangeindex < len(r.unread) && !broke && handled == rangeindex + 1 && r.unread == old(r.unread) && r.stream == old(r.stream)
+//@   loop 0 assume rangeindex + 1 < len(r.unread) ==> r.stream.session.bufferManager != nil && len(r.stream.session.bufferManager.mem) < 4294967296
 //@   modifies heap
 //@ func (*Stream).writeFallback
 //@   modifies heap
@@ -1195,6 +1219,7 @@ func lemmaUpdateThenNew(s *bufferSlice) {
 //@   exit[C09] closedSeen ==> cleared && recycled
 //@   modifies heap
 
+//@ stable pendingData.stream, pendingData.unread   // not touched by the buffer-manager callees abstracted in clear()
 //@ stable Stream.pendingData, Stream.recvBuf, Stream.sendBuf, Stream.id, Stream.session
 
 // C07 (c): dispatch by id - an existing stream is found under exactly the id of the element; a new one is
